@@ -168,7 +168,13 @@ impl ParsedProgram {
       let data = self.const_blob[start .. start + len].to_vec();
 
       // get the type from the id
-      let ty = &self.types.entries[const_entry.type_id as usize];
+      let ty = match self.types.entries.get(const_entry.type_id as usize) {
+        Some(ty) => ty,
+        None => {
+          // a constant that names a type the type section does not have
+          return Err(MechError::new(UnknownConstantTypeError { tag: const_entry.type_id as u16 }, None).with_compiler_loc());
+        }
+      };
 
       let val: Value = match ty.tag {
         #[cfg(feature = "bool")]
